@@ -5,7 +5,7 @@ import z3
 from contracts.common import *
 from pyvc.unit import Unit, Contract, LoopInv
 from pyvc.seq import Chunk, list_term, val_term, Val, v_snoc, v_nil, RecFn, dict_term
-from pyvc.values import Opq, I, SBytes, SStr, is_z3, OpaqueVal, Obj, lit, Raised, ExcObj, Choice
+from pyvc.values import Opq, I, SBytes, SStr, is_z3, OpaqueVal, Obj, lit, Raised, ExcObj, Choice, Unsupported
 from pyvc import ops as _ops
 from pyvc.interp import lookup_qualname, BoundMethod
 from pyvc.models import LazySeq, DumpedStr
@@ -1026,3 +1026,342 @@ class ParsePELSummary(ParsePEL):
 
 
 C08_UNITS = [ParsePELSummary]
+
+
+# ------------------------------------------------------------------ buildOutput for ANY number of sections (C01)
+# Spec functions (all uninterpreted, defined by the equations the invariants unfold):
+#   NM(j), VAL(j)      name / value of section j
+#   CNT(k, i)          number of sections among 0..i-1 named k:  CNT(k,0) = 0, CNT(k,i+1) = CNT(k,i) + [NM(i) = k]
+#   KEY(j)             NM(j) if CNT(NM(j), n) = 1 else NM(j) + ' ' + str(CNT(NM(j), j))
+#   OUT(i)             out0 ++ [(KEY(j), VAL(j)) for j < i]
+def bo_fns():
+    return dict(n=z3.Int('bo_n'), NM=z3.Function('bo_name', z3.IntSort(), PyStr), VAL=z3.Function('bo_value', z3.IntSort(), Val),
+                CNT=z3.Function('bo_count', PyStr, z3.IntSort(), z3.IntSort()), OUT=z3.Function('bo_out', z3.IntSort(), Val))
+
+
+def bo_key(j):
+    """KEY(j) as a string value (forks on whether the name is unique in the whole log)"""
+    f = bo_fns()
+    nm = f['NM'](zint(j))
+    if branch(f['CNT'](nm, f['n']) == 1):
+        return mkstr([Opq(nm)])
+    return mkstr([Opq(nm), 32, _ops.fmt_int(None, f['CNT'](nm, zint(j)), 'd')])
+
+
+def bo_key_term(j):
+    """KEY(j) as one term (no forking) - for quantified statements"""
+    f = bo_fns()
+    nm = f['NM'](zint(j))
+    numbered = str_term(mkstr([Opq(nm), 32, _ops.fmt_int(None, f['CNT'](nm, zint(j)), 'd')]))
+    return z3.If(f['CNT'](nm, f['n']) == 1, nm, numbered)
+
+
+def as_fmap(c):
+    from pyvc.models import FMap
+    if isinstance(c, FMap):
+        return c
+    if isinstance(c, dict) and len(c) == 0 and not getattr(c, 'sym', None):
+        return FMap(z3.K(PyStr, z3.BoolVal(False)), [z3.K(PyStr, I(0)), z3.K(PyStr, I(0))])
+    raise Unsupported("counts is neither empty nor an FMap")
+
+
+def bo_cnt_def_at(k, i):
+    """instance of the defining equation of CNT: CNT(k, i+1) = CNT(k, i) + [NM(i) = k]   (i >= 0)"""
+    f = bo_fns()
+    CNT, NM = f['CNT'], f['NM']
+    return z3.Implies(zint(i) >= 0, CNT(k, zint(i) + 1) == CNT(k, zint(i)) + z3.If(NM(zint(i)) == k, 1, 0))
+
+
+def bo_L2_at(k, a, b):
+    """instance of the monotonicity lemma L2"""
+    CNT = bo_fns()['CNT']
+    return z3.Implies(z3.And(0 <= zint(a), zint(a) <= zint(b)), z3.And(CNT(k, zint(a)) <= CNT(k, zint(b)), CNT(k, zint(a)) >= 0))
+
+
+def bo_numbered(name, v):
+    return str_term(mkstr([Opq(name), 32, _ops.fmt_int(None, v, 'd')]))
+
+
+def bo_L1_at(ka, a, kb, b):
+    return z3.Implies(z3.And(zint(a) >= 0, zint(b) >= 0, bo_numbered(ka, a) == bo_numbered(kb, b)), z3.And(ka == kb, zint(a) == zint(b)))
+
+
+def bo_cnt_def(ctx, i):
+    """the defining equation of CNT at i, for every name"""
+    f = bo_fns()
+    k = z3.Const('k!cnt', PyStr)
+    ctx.assume(z3.ForAll([k], bo_cnt_def_at(k, i)))
+
+
+def bo_base(ctx):
+    if not ctx.ghost.get('bo_base'):
+        ctx.ghost['bo_base'] = True
+        f = bo_fns()
+        k = z3.Const('k!cnt0', PyStr)
+        ctx.assume(z3.ForAll([k], f['CNT'](k, 0) == 0, patterns=[f['CNT'](k, 0)]))
+
+
+def bo_instances(ctx, i):
+    """instances (at the name of section i) of facts that are assumed in quantified form: the solver is not left to find them"""
+    f = bo_fns()
+    nm = f['NM'](zint(i))
+    ctx.assume(z3.And(bo_cnt_def_at(nm, i), bo_L2_at(nm, zint(i) + 1, f['n']), bo_L2_at(nm, i, f['n']), bo_L2_at(nm, 0, i)))
+
+
+class BOCountInv(LoopInv):
+    """first loop, after i sections: counts[k] == [CNT(k,i), 0] for exactly the names met so far"""
+    func = PM + "buildOutput"
+    loop = 0
+    modifies_locals = ('section_num', 'name')
+
+    def heap_targets(self, it, fr):
+        return [fr.locals['counts']]
+
+    def body(self, m, k, i):
+        c = bo_fns()['CNT'](k, zint(i))
+        return z3.And(z3.Select(m.cols[0], k) == c, z3.Select(m.cols[1], k) == 0, z3.Select(m.has, k) == (c >= 1))
+
+    def havoc(self, it, fr, i):
+        from pyvc.models import FMap
+        bo_base(it.ctx)
+        ctx = it.ctx
+        m = FMap(ctx.fresh('bo_has', z3.ArraySort(PyStr, z3.BoolSort())), [ctx.fresh('bo_c0', z3.ArraySort(PyStr, z3.IntSort())),
+                                                                          ctx.fresh('bo_c1', z3.ArraySort(PyStr, z3.IntSort()))])
+        fr.locals['counts'] = m
+        bo_cnt_def(ctx, i)
+        bo_instances(ctx, i)
+        ctx.assume(self.body(m, bo_fns()['NM'](zint(i)), i))       # instance of the invariant (assumed next) at this section's name
+
+    def inv(self, it, fr, i):
+        bo_base(it.ctx)
+        m = as_fmap(fr.locals['counts'])
+        k = z3.Const('k!inv1', PyStr)
+        return z3.ForAll([k], self.body(m, k, i))
+
+
+class BOEmitInv(LoopInv):
+    """second loop, after i sections: out == OUT(i); counts[k] == [CNT(k,n), numbered-so-far(k,i)]"""
+    func = PM + "buildOutput"
+    loop = 1
+    modifies_locals = ('section_num', 'name', 'modifier')
+
+    def heap_targets(self, it, fr):
+        return [fr.locals['counts'], fr.locals['out']]
+
+    def base(self, it, fr):
+        ctx = it.ctx
+        if not ctx.ghost.get('bo_out_base'):
+            ctx.ghost['bo_out_base'] = True
+            from pyvc.seq import dict_term
+            ctx.assume(bo_fns()['OUT'](0) == dict_term(fr.locals['out']))
+
+    def body(self, m, k, i):
+        f = bo_fns()
+        tot = f['CNT'](k, f['n'])
+        return z3.And(z3.Select(m.cols[0], k) == tot, z3.Select(m.has, k) == (tot >= 1),
+                      z3.Select(m.cols[1], k) == z3.If(tot == 1, 0, f['CNT'](k, zint(i))))
+
+    def havoc(self, it, fr, i):
+        from pyvc.models import FMap
+        bo_base(it.ctx)
+        self.base(it, fr)
+        ctx = it.ctx
+        m = FMap(ctx.fresh('bo_has2', z3.ArraySort(PyStr, z3.BoolSort())),
+                 [ctx.fresh('bo_d0', z3.ArraySort(PyStr, z3.IntSort())), ctx.fresh('bo_d1', z3.ArraySort(PyStr, z3.IntSort()))])
+        fr.locals['counts'] = m
+        out = fr.locals['out']
+        out.clear()
+        out.sym[:] = []
+        out.base_term = bo_fns()['OUT'](zint(i))
+        out.fresh_check = lambda it_, key: bo_fresh(it_, key, i)
+        bo_cnt_def(ctx, i)
+        bo_instances(ctx, i)
+        ctx.assume(self.body(m, bo_fns()['NM'](zint(i)), i))
+
+    def inv(self, it, fr, i):
+        bo_base(it.ctx)
+        self.base(it, fr)
+        from pyvc.seq import dict_term
+        f = bo_fns()
+        m = as_fmap(fr.locals['counts'])
+        k = z3.Const('k!inv2', PyStr)
+        return z3.And(z3.ForAll([k], self.body(m, k, i)), dict_term(fr.locals['out']) == f['OUT'](zint(i)))
+
+    def unfold(self, it, fr, i):
+        f = bo_fns()
+        key = bo_key(i)
+        it.ctx.assume(f['OUT'](zint(i) + 1) == ufun('v_dsnoc', Val, PyStr, Val, Val)(f['OUT'](zint(i)), str_term(key), f['VAL'](zint(i))))
+
+
+def bo_fresh(it, key, i):
+    """the key stored at iteration i is not yet in OUT(i): it is none of the keys the document started with and differs from
+    KEY(j) for every j < i.  The universally quantified part is proved for an arbitrary j (a fresh constant); the instances of
+    the quantified preconditions (definition of CNT, L1, L2, T1) needed for that j are stated explicitly."""
+    ctx = it.ctx
+    f = bo_fns()
+    CNT, NM, n = f['CNT'], f['NM'], f['n']
+    kt = str_term(key)
+    j = ctx.fresh('j_arbitrary', 'int')
+    nmi, nmj = NM(zint(i)), NM(j)
+    in0 = ufun('bo_in_out0', PyStr, z3.BoolSort())
+    inst = z3.And(bo_cnt_def_at(nmi, j), bo_cnt_def_at(nmj, j), bo_cnt_def_at(nmj, i),
+                  bo_L2_at(nmi, j + 1, i), bo_L2_at(nmi, 0, j), bo_L2_at(nmj, 0, j), bo_L2_at(nmj, j + 1, n), bo_L2_at(nmi, 0, i),
+                  bo_L1_at(nmj, CNT(nmj, j), nmi, CNT(nmi, zint(i))),
+                  nmi != bo_numbered(nmj, CNT(nmj, j)), nmj != bo_numbered(nmi, CNT(nmi, zint(i))),
+                  z3.Not(in0(nmi)), z3.Not(in0(bo_numbered(nmi, CNT(nmi, zint(i))))))
+    ctx.prove(z3.Implies(inst, z3.And(z3.Not(in0(kt)), z3.Implies(z3.And(j >= 0, j < zint(i)), bo_key_term(j) != kt))),
+              "buildOutput: the key written for section i is new (so the entry is appended, in log order, and replaces nothing)",
+              kind='invariant')
+
+
+class BuildOutputAny(Unit):
+    """buildOutput for ANY number of sections with arbitrary names: the document becomes out0 ++ [(KEY(j), VAL(j)) | j < n]"""
+    prop = "C01"
+    name = "buildOutput (any number of sections)"
+    target = PM + "buildOutput"
+    invariants = [BOCountInv, BOEmitInv]
+
+    def setup_ctx(self, ctx):
+        ctx.feasibility_rlimit = 400000
+
+    def inputs(self, S):
+        from collections import OrderedDict
+        from pyvc.models import LazySeq, HDict
+        if not S.symbolic:
+            names = [n for n in T('sectionNames').values() if n not in ("Private Header", "User Header")] + ["Unknown"]
+            n = S.int("n", 0, 14)
+            secs = [OrderedDict([(names[S.int("name%d" % j, 0, len(names) - 1) % (3 if S.int("few", 0, 1) else len(names))], ("value", j))])
+                    for j in range(n)]
+            return dict(sections=secs, out=OrderedDict([("Private Header", "ph"), ("User Header", "uh")]))
+        f = bo_fns()
+        S.assume(f['n'] >= 0)
+
+        def elem(j):
+            d = OrderedDict()
+            d[mkstr([Opq(f['NM'](zint(j)))])] = OpaqueVal(f['VAL'](zint(j)), 'val')
+            return d
+        out = HDict()
+        out.base_term = z3.Const('bo_out0', Val)
+        out.fresh_check = lambda it_, key: bo_fresh(it_, key, 0)
+        return dict(sections=LazySeq(f['n'], elem, 'sections'), out=out)
+
+    def pre(self, S, inp):
+        if not S.symbolic:
+            return True
+        f = bo_fns()
+        CNT, NM, n = f['CNT'], f['NM'], f['n']
+        k = z3.Const('k!pre', PyStr)
+        a, b, m = z3.Int('a!pre'), z3.Int('b!pre'), z3.Int('m!pre')
+        cat = ufun('cat', PyStr, PyStr, PyStr)
+        dec = lambda v: str_term(mkstr([_ops.fmt_int(None, v, 'd')]))
+        numbered = lambda name, v: str_term(mkstr([Opq(name), 32, _ops.fmt_int(None, v, 'd')]))
+        in0 = ufun('bo_in_out0', PyStr, z3.BoolSort())
+        ka, kb = z3.Const('ka!pre', PyStr), z3.Const('kb!pre', PyStr)
+        return z3.And(
+            # L2 (lemma, proved by induction in bo_lemmas): counting is monotone, and never negative
+            z3.ForAll([k, a, b], z3.Implies(z3.And(0 <= a, a <= b), z3.And(CNT(k, a) <= CNT(k, b), CNT(k, a) >= 0)),
+                      patterns=[z3.MultiPattern(CNT(k, a), CNT(k, b))]),
+            # L1 (string fact, checked in bo_lemmas): name + ' ' + str(m) determines name and m (m >= 0)
+            z3.ForAll([ka, kb, a, b], z3.Implies(z3.And(a >= 0, b >= 0, numbered(ka, a) == numbered(kb, b)), z3.And(ka == kb, a == b)),
+                      patterns=[z3.MultiPattern(numbered(ka, a), numbered(kb, b))]),
+            # T1 (alphabet, enumerated over the published table): no section name is another name followed by ' <number>',
+            # and neither a name nor a numbered name is one of the keys the document starts with (the two headers)
+            z3.ForAll([a, b, m], z3.Implies(m >= 0, NM(a) != numbered(NM(b), m)), patterns=[z3.MultiPattern(NM(a), numbered(NM(b), m))]),
+            z3.ForAll([a], z3.Not(in0(NM(a))), patterns=[in0(NM(a))]),
+            z3.ForAll([a, m], z3.Implies(m >= 0, z3.Not(in0(numbered(NM(a), m)))), patterns=[in0(numbered(NM(a), m))]))
+
+    def pre_native(self):
+        return True
+
+    def check(self, P, inp, old, out):
+        if not P.symbolic:
+            names = [list(d.keys())[0] for d in inp['sections']]
+            want = [("Private Header", "ph"), ("User Header", "uh")] + \
+                list(zip(spec_numbered(names), [list(d.values())[0] for d in inp['sections']]))
+            P.prove(out.returned and list(inp['out'].items()) == want,
+                    "document == out0 ++ [(KEY(j), VAL(j)) for j < n]: one entry per section in log order, repeated names numbered 0,1,2..")
+            return
+        from pyvc.seq import dict_term
+        f = bo_fns()
+        P.prove(out.returned, "buildOutput returns for every list of single-entry sections")
+        if not out.returned:
+            return
+        P.prove(dict_term(inp['out']) == f['OUT'](f['n']),
+                "document == out0 ++ [(KEY(j), VAL(j)) for j < n]: one entry per section in log order; KEY(j) is the section's name when "
+                "that name occurs once, else name + ' ' + (number of earlier sections with that name)")
+
+
+def bo_lemmas(tier, seed):
+    """the lemmas the buildOutput proof uses as preconditions, each discharged on its own:
+       L2  counting is monotone and non-negative            - induction over the prefix length, z3
+       L1a a+' '+x = b+' '+y for digit strings x, y  =>  a = b and x = y            - cvc5 (strings)
+       L1b str.from_int is injective on non-negative integers                        - z3 (sequences)
+    (T1, the alphabet condition, is the enumeration over the published name table in build_output_enum.)"""
+    import subprocess, tempfile, time, os
+    obs = []
+    # ---- L2 by induction
+    t0 = time.time()
+    f = bo_fns()
+    CNT, NM = f['CNT'], f['NM']
+    k, a = z3.Const('k', PyStr), z3.Int('a')
+    b0, k1, a1 = z3.Int('b0'), z3.Const('k1', PyStr), z3.Int('a1')
+
+    def P(kk, aa, bb):
+        return z3.Implies(z3.And(0 <= aa, aa <= bb), z3.And(CNT(kk, aa) <= CNT(kk, bb), CNT(kk, aa) >= 0))
+    s = z3.Solver()
+    s.set('timeout', 60000)
+    # base case: b = 0
+    s.push()
+    s.add(CNT(k1, 0) == 0, z3.Not(P(k1, a1, 0)))
+    base = s.check()
+    s.pop()
+    # step: P(., ., b0) for all names / positions  =>  P(., ., b0 + 1)
+    s.push()
+    s.add(b0 >= 0, z3.ForAll([k, a], P(k, a, b0)), P(k1, a1, b0), P(k1, b0, b0),
+          CNT(k1, b0 + 1) == CNT(k1, b0) + z3.If(NM(b0) == k1, 1, 0), z3.Not(P(k1, a1, b0 + 1)))
+    step = s.check()
+    s.pop()
+    ok = base == z3.unsat and step == z3.unsat
+    obs.append(dict(name="buildOutput lemma L2: CNT(k, a) <= CNT(k, b) and CNT(k, a) >= 0 for 0 <= a <= b (induction on b)", solver='z3',
+                    kind='post', status='discharged' if ok else ('failed' if z3.sat in (base, step) else 'unknown'),
+                    goal="base: %s, step: %s" % (base, step), secs=time.time() - t0))
+    # ---- L1a with cvc5, L1b with z3
+    l1a = """(set-logic QF_SLIA)
+(declare-const a String)(declare-const b String)(declare-const x String)(declare-const y String)
+(assert (str.in_re x (re.+ (re.range "0" "9"))))(assert (str.in_re y (re.+ (re.range "0" "9"))))
+(assert (= (str.++ a " " x) (str.++ b " " y)))
+(assert (or (not (= a b)) (not (= x y))))
+(check-sat)
+"""
+    l1b = """(set-logic QF_SLIA)
+(declare-const m Int)(declare-const k Int)
+(assert (>= m 0))(assert (>= k 0))
+(assert (= (str.from_int m) (str.from_int k)))(assert (not (= m k)))
+(check-sat)
+"""
+    for nm, text, cmds, title in (
+            ('L1a', l1a, (['/usr/bin/cvc5', '--strings-exp'], ['z3-new']),
+             "buildOutput lemma L1a: a + ' ' + x == b + ' ' + y for digit strings x, y implies a == b and x == y"),
+            ('L1b', l1b, (['z3-new'], ['/usr/bin/z3'], ['/usr/bin/cvc5', '--strings-exp']),
+             "buildOutput lemma L1b: the decimal numeral is injective on non-negative integers")):
+        t0 = time.time()
+        fd, path = tempfile.mkstemp(suffix='.smt2', prefix='pyvc_' + nm)
+        os.write(fd, text.encode())
+        os.close(fd)
+        res, used = 'unknown', None
+        try:
+            for cmd in cmds:
+                try:
+                    r = subprocess.run(cmd + [path], capture_output=True, text=True, timeout=120)
+                    out = (r.stdout or '').strip().splitlines()
+                    if out and out[0] in ('unsat', 'sat'):
+                        res, used = out[0], os.path.basename(cmd[0])
+                        break
+                except Exception:
+                    continue
+        finally:
+            os.unlink(path)
+        obs.append(dict(name=title, solver=used or 'none', kind='post',
+                        status={'unsat': 'discharged', 'sat': 'failed'}.get(res, 'unknown'), goal=text.replace('\n', ' ')[:300],
+                        secs=time.time() - t0))
+    return obs, {}
